@@ -1,4 +1,5 @@
 import ArrowModel.C16.StepInv
+import ArrowModel.C16.Frame
 /-
 C16 — property theorems.  "While anything refers to a memory region its bytes do not change
 and its owner is not released; after the last reference is dropped, in any order, the owner is
@@ -123,6 +124,64 @@ theorem mutable_is_exclusive (n : Nat) (ops : List Op) (i r l : Nat)
   have := hinv.rc_eq r
   rw [hinv.mut_excl i r l hi] at this
   simpa using this.symm
+
+/-! ### (1) immutability -/
+
+/-- **One step never changes what a surviving `Buffer` sees**: if slot `j` holds a `Buffer`
+and the operation does not consume or overwrite slot `j`, then after the operation slot `j`
+holds the same `Buffer` and the bytes visible through it are the same — whatever the
+operation does to other handles on the same region (`into_mutable`, `into_vec`, `unary_mut`,
+mask `&=`, writes through a `MutableBuffer`, drops, export / import …). -/
+theorem view_stable_step (s : State) (op : Op) (h : Inv s) (j : Nat) (hd : Handle)
+    (hj : s.slots[j]? = some (.buf hd)) (hnt : j ∉ op.targets) :
+    (step s op).1.slots[j]? = some (.buf hd) ∧ view (step s op).1 hd = view s hd := by
+  refine ⟨by rw [step_slots s op j hnt]; exact hj, ?_⟩
+  unfold view
+  rw [step_bytes s op h hd.region (Or.inl ⟨j, _, hnt, hj, rfl⟩)]
+
+/-- **Bytes seen through any live immutable handle are constant over its lifetime**: over
+every history, from every reachable state, as long as no operation consumes slot `j` the
+`Buffer` in it stays there and shows the same bytes. -/
+theorem view_constant_over_lifetime (ops : List Op) : ∀ (s : State), Inv s → ∀ (j : Nat) (hd : Handle),
+    s.slots[j]? = some (.buf hd) → (∀ op ∈ ops, j ∉ op.targets) →
+    (run s ops).slots[j]? = some (.buf hd) ∧ view (run s ops) hd = view s hd := by
+  induction ops with
+  | nil => intro s _ j hd hj _; exact ⟨hj, rfl⟩
+  | cons op ops ih =>
+    intro s h j hd hj hall
+    have h1 := view_stable_step s op h j hd hj (hall op (by simp))
+    have h2 := ih (step s op).1 (step_inv s op h) j hd h1.1 (fun o ho => hall o (by simp [ho]))
+    exact ⟨h2.1, h2.2.trans h1.2⟩
+
+/-- **An exported struct (or wrapper) sees constant bytes too**: no operation changes the
+bytes of a region while some owner keeps a handle on it. -/
+theorem held_bytes_stable_step (s : State) (op : Op) (h : Inv s) (r : Nat) (hh : 1 ≤ heldRefs s r) :
+    regionBytes (step s op).1 r = regionBytes s r :=
+  step_bytes s op h r (Or.inr hh)
+
+/-- **A region is mutated only while exactly one handle refers to it** (contrapositive of the
+frame): if an operation changes the bytes of an existing region then nothing outside the
+operation's own target slots refers to that region and no owner holds it. -/
+theorem mutated_only_if_unique (s : State) (op : Op) (h : Inv s) (r : Nat)
+    (hne : regionBytes (step s op).1 r ≠ regionBytes s r) :
+    heldRefs s r = 0 ∧ ∀ (j : Nat) (sl : Slot), s.slots[j]? = some sl → sl.region? = some r → j ∈ op.targets := by
+  constructor
+  · cases hh : heldRefs s r with
+    | zero => rfl
+    | succ k => exact absurd (step_bytes s op h r (Or.inr (by omega))) hne
+  · intro j sl hj hr
+    by_cases e : j ∈ op.targets
+    · exact e
+    · exact absurd (step_bytes s op h r (Or.inl ⟨j, sl, e, hj, hr⟩)) hne
+
+/-- non-vacuity: slot 1 shares slot 0's region; `into_mutable` on slot 0 declines, so a later
+"write" is inapplicable and slot 1's view is what it was; after slot 1 is dropped the same
+conversion succeeds and the write goes through -/
+example :
+    let s := reach 3 [.allocVec 0 8 8 1 1, .clone 0 1]
+    let s' := run s [.intoMutable 0, .write 0 0 99, .unaryMut 0 1]
+    (s.slots[1]? = some (.buf ⟨0, 0, 8⟩)) ∧ view s' ⟨0, 0, 8⟩ = view s ⟨0, 0, 8⟩ ∧
+    view (run s [.drop 1, .intoMutable 0, .write 0 0 99, .freeze 0]) ⟨0, 0, 8⟩ ≠ view s ⟨0, 0, 8⟩ := by decide
 
 /-! ### non-vacuity: non-trivial reachable states -/
 
